@@ -13,7 +13,7 @@ PROP = {
             "non-trivial = >= 10 name uses and >= 1 use that is shadowing-sensitive (another declaration of the same name is visible, or the use sits in a for header / "
             "generic-for explist / until condition / local right-hand side / the body of its own local function)",
     "min_nontrivial": {"quick": 3000, "thorough": 100000},
-    "max_secs": {"quick": 60, "thorough": 900},
+    "max_secs": {"quick": 600, "thorough": 1500},
     "require_clauses": ["xcheck:uses-confirmed-by-luars", "binding:uses-compared"],
     "assumptions": COMMON_ASSUME + [
         "luars 0.26.2 implements Lua 5.5 lexical scoping correctly (it is the second opinion for the oracle; a disagreement makes the case inconclusive)",
